@@ -24,6 +24,7 @@ type Clause struct {
 type LoopSpec struct {
 	Invariants []*Clause
 	Decreases  *Clause
+	Steps      []*Clause // obligations at the back edge only ("whenever the loop goes round again, ...")
 }
 
 type FuncContract struct {
@@ -299,7 +300,16 @@ func (cs *Contracts) LoadLines(pkg string, lines []string, wheres []string) erro
 			}
 			kind := fields[2]
 			r := strings.TrimSpace(strings.SplitN(line, kind, 2)[1])
-			c, err := parseClause(kind, r, where)
+			attr := ""
+			if ix := strings.Index(kind, "["); ix > 0 {
+				attr = kind[ix:]
+				kind = kind[:ix]
+			}
+			pk := kind
+			if kind == "step" {
+				pk = "invariant"
+			}
+			c, err := parseClause(pk+attr, r, where)
 			if err != nil {
 				return err
 			}
@@ -312,6 +322,8 @@ func (cs *Contracts) LoadLines(pkg string, lines []string, wheres []string) erro
 				ls.Invariants = append(ls.Invariants, c)
 			} else if kind == "decreases" {
 				ls.Decreases = c
+			} else if kind == "step" {
+				ls.Steps = append(ls.Steps, c)
 			} else {
 				return fmt.Errorf("%s: unknown loop clause %q", where, kind)
 			}
@@ -606,4 +618,37 @@ func (cs *Contracts) ResolveLikes() error {
 		c.Like = nil
 	}
 	return nil
+}
+
+// allProps: the block's properties plus every property a clause is attributed to.
+func (c *FuncContract) allProps() []string {
+	set := map[string]bool{}
+	var out []string
+	add := func(ps []string) {
+		for _, p := range ps {
+			if !set[p] {
+				set[p] = true
+				out = append(out, p)
+			}
+		}
+	}
+	add(c.Props)
+	for _, cl := range c.Requires {
+		add(cl.Props)
+	}
+	for _, cl := range c.Ensures {
+		add(cl.Props)
+	}
+	if c.Decreases != nil {
+		add(c.Decreases.Props)
+	}
+	for _, cs := range c.CallSites {
+		add(cs.Clause.Props)
+	}
+	for _, l := range c.Loops {
+		for _, cl := range l.Invariants {
+			add(cl.Props)
+		}
+	}
+	return out
 }
